@@ -51,8 +51,11 @@ Record cfg := mkCfg {
   sigbuf : bool;      (* Stats' signal channel is buffered (the repaired code); false = the original *)
   inmod : nat;        (* Distributor.WithInputFilter: ids divisible by inmod are rejected (0 = no filter) *)
   outmod : nat;       (* Distributor.WithOutputFilter: likewise on the Receive side *)
-  skipstop : bool     (* a worker returns when Receive yields ErrCurrentOpSkip (the original code);
+  skipstop : bool;    (* a worker returns when Receive yields ErrCurrentOpSkip (the original code);
                          false = it continues with the next Receive (the repaired code) *)
+  stalebreak : bool   (* NOT the code in /repo (false there): a variant of the sequential dispatch loop that
+                         re-checks each key the Range yielded and leaves the loop (`break`) at the first key
+                         that is no longer subscribed; only used to show why such a key must be skipped *)
 }.
 
 Definition passes (k : nat) (m : nat) : bool := Nat.eqb k 0 || negb (Nat.eqb (Nat.modulo m k) 0).
@@ -181,7 +184,8 @@ Inductive event :=
 | EWExit (w : nat)              (* dist.Receive returns an error *)
 | ERecv (s : sid)               (* the subscriber receives from its (buffered) channel *)
 | ELoopFilter                   (* dist.Send: the input filter rejects the message (Send returns nil) *)
-| ESkip (w : nat).              (* dist.Receive: the output filter rejects the item (ErrCurrentOpSkip) *)
+| ESkip (w : nat)               (* dist.Receive: the output filter rejects the item (ErrCurrentOpSkip) *)
+| ERangeStale (w : nat) (s : sid). (* stalebreak variant: the Range yielded s, s has been deleted meanwhile: break *)
 
 (* environment events; everything else is a step of the broker or of a call already in progress *)
 Definition internal (e : event) : bool :=
@@ -444,6 +448,16 @@ Definition step (st : state) (e : event) : option state :=
                                   (set_wk (upd (wk st) w (if skipstop c then WDone else WIdle)) st)))
                     | [] => None
                     end
+           | _ => None
+           end
+      else None
+  | ERangeStale w s =>
+      if stalebreak c
+      then match wk st w with
+           | WBusy m true v mu p =>
+               if negb (memb s (subs st)) && negb (memb s v) && negb (par c) && is_nil p
+               then Some (set_wk (upd (wk st) w (WBusy m false (v ++ [s]) mu p)) st)
+               else None
            | _ => None
            end
       else None
